@@ -499,6 +499,11 @@ class _BaseODE:
 
         if self.pre_eig:
             force = self.phi.T @ force
+            # initial conditions are given in physical coordinates:
+            if d0 is not None:
+                d0 = la.solve(self.phi, d0)
+            if v0 is not None:
+                v0 = la.solve(self.phi, v0)
 
         self._init_dv(d, v, d0, v0, force[:, 0], static_ic)
 
